@@ -18,7 +18,7 @@
 //   - the node does not crash;
 //   - under `go build -race` (a second binary built at run time) the race detector reports nothing
 //     that involves the node's code.
-//   A hard time-out without such a dump is counted ("slow") and reported as nothing.
+//     A hard time-out without such a dump is counted ("slow") and reported as nothing.
 //
 // Correspondence with the model: goroutine dumps are sampled during the concurrent phase; every
 // goroutine found blocked exactly at an operation of the skeleton is mapped (by its call path
@@ -340,6 +340,30 @@ func genRaceDirected(r *Rng, id int) *Scenario {
 	return sc
 }
 
+// pool-directed (race tier): transaction submitters, a block submitter whose branch confirms some of
+// them (the chain then removes them from the pool), and a reader that keeps querying the pool and the
+// chain state.
+func genPoolDirected(r *Rng, id int) *Scenario {
+	sc := &Scenario{ID: id, Stream: "pool-directed", Seed: r.Next(), Trunk: 16, Branches: map[string]int{"A": 4, "B": 3}, SampleMs: 0, Expect: "completes"}
+	sc.Setup = chain("T", 1, 16)
+	sc.Txs = []TxSpec{{In: []string{"R5"}, NOut: 2}, {In: []string{"X0.0"}, NOut: 1}, {In: []string{"R9"}, NOut: 1}, {In: []string{"X0.1", "X2.0"}, NOut: 1}, {In: []string{"R13"}, NOut: 2}}
+	sc.BlockTxs = map[string][]int{"A18": {0}, "A19": {2}, "B18": {4}}
+	var reads []Event
+	for i := 0; i < 16; i++ {
+		api := []string{"pool", "pool", "best", "justified", "inmain"}[r.Intn(5)]
+		reads = append(reads, read(api, "T16"))
+	}
+	t1 := []Event{{K: "tx", Tx: 1}, {K: "tx", Tx: 0}, {K: "tx", Tx: 3}, {K: "tx", Tx: 2}, {K: "tx", Tx: 0}}
+	t2 := []Event{{K: "tx", Tx: 4}, {K: "tx", Tx: 2}, {K: "tx", Tx: 3}, {K: "tx", Tx: 1}}
+	blocks := append(chain("A", 17, 20), chain("B", 17, 19)...)
+	if r.Bool() {
+		sc.Workers = []Worker{{Kind: "block", Events: blocks}, {Kind: "tx", Events: t1}, {Kind: "tx", Events: t2}, {Kind: "read", Events: reads}}
+	} else {
+		sc.Workers = []Worker{{Kind: "block", Events: chain("A", 17, 20)}, {Kind: "block", Events: chain("B", 17, 19)}, {Kind: "tx", Events: append(t1, t2...)}, {Kind: "read", Events: reads}}
+	}
+	return sc
+}
+
 // ---------------------------------------------------------------- running children
 
 func jobs() int {
@@ -353,12 +377,12 @@ func jobs() int {
 }
 
 type runOut struct {
-	sc     *Scenario
-	res    *Result
-	crash  string // child died
-	races  []raceReport
-	race   bool // ran under the race detector
-	tries  int
+	sc    *Scenario
+	res   *Result
+	crash string // child died
+	races []raceReport
+	race  bool // ran under the race detector
+	tries int
 }
 
 func scratchBase() string {
@@ -654,6 +678,10 @@ func runC37(c *Ctx) error {
 	var raceScs []*Scenario
 	for i := 0; i < c.N(4, 14); i++ {
 		raceScs = append(raceScs, genRaceDirected(c.Rng, id))
+		id++
+	}
+	for i := 0; i < c.N(2, 6); i++ {
+		raceScs = append(raceScs, genPoolDirected(c.Rng, id))
 		id++
 	}
 	for i := 0; i < c.N(1, 4); i++ {
